@@ -221,9 +221,61 @@ def check_c06(idx: Index, tier: str, res: Result) -> None:
                                   "override are dropped, and the model now aliases the scenario's own dict" % (fi.qual, t.attr, src(n.value)),
                                   key="REBIND/%s/%s" % (fi.qual, t.attr))
     res.ob("REBIND", "whole-table stores to model tables in scenario operations: %d" % nreb, nreb == 0)
+    # ---- INPLACE: the *entries* of those tables are replaced, never edited: a clone copies the table, not the lists and dicts in it,
+    # so an entry a scenario did not override is still the source model's own object (and every sibling's)
+    nip = 0
+    MUT = ("append", "extend", "insert", "clear", "sort", "reverse", "remove", "pop", "update", "setdefault")
+    for pre in ("BPTK_Py/sdsimulation/", "BPTK_Py/scenariomanager/", "BPTK_Py/scenariorunners/", "BPTK_Py/modeling/model.py", "BPTK_Py/bptk.py"):
+        for fi in idx.all_funcs(pre):
+            for n in walk_no_nested(fi.node):
+                entry = None
+                if isinstance(n, (ast.Assign, ast.AugAssign, ast.Delete)):
+                    tg = n.targets if isinstance(n, (ast.Assign, ast.Delete)) else [n.target]
+                    for t in tg:
+                        if isinstance(t, ast.Subscript) and isinstance(t.value, ast.Subscript) and isinstance(t.value.value, ast.Attribute) \
+                                and t.value.value.attr in ("points", "constants") and (dotted(t.value.value.value) or "").split(".")[-1] in ("model", "mod", "self", "sc", "scenario"):
+                            entry = t.value
+                elif isinstance(n, ast.Call) and isinstance(n.func, ast.Attribute) and n.func.attr in MUT and isinstance(n.func.value, ast.Subscript) \
+                        and isinstance(n.func.value.value, ast.Attribute) and n.func.value.value.attr in ("points",) \
+                        and (dotted(n.func.value.value.value) or "").split(".")[-1] in ("model", "mod", "self", "sc", "scenario"):
+                    entry = n.func.value
+                if entry is not None:
+                    nip += 1
+                    res.check("INPLACE", "%s: %s" % (fi.qual, norm_stmt(n)[:70]), False, fi.loc(n), fi.qual, norm_stmt(n)[:110],
+                              "%s edits the entry %s in place instead of replacing it: a cloned model shares the entries it did not override with the "
+                              "model it was cloned from and with its sibling scenarios, so the edit shows up in all of them" % (fi.qual, src(entry)),
+                              key="INPLACE/%s/%s" % (fi.qual, src(entry.value)))
+    res.ob("INPLACE", "entries of points/constants tables edited in place: %d" % nip, nip == 0)
+    # ---- the compiled XMILE model class (Jinja template): every instance builds its own tables.  Scenarios of one manager are
+    # instances of the same generated class; a table taken from a module-level name is one object for all of them
+    from .xmile import jinja_methods, JINJA
+    methods, _failed = jinja_methods(idx)
+    ginit = methods.get("__init__")
+    if ginit is None:
+        raise AnalysisError("generated __init__ not found in the Jinja template")
+    gparams = {a.arg for a in ginit.args.args + ginit.args.kwonlyargs}
+    ngen = 0
+    for n in ast.walk(ginit):
+        if isinstance(n, ast.Assign) and len(n.targets) == 1 and isinstance(n.targets[0], ast.Attribute) and isinstance(n.targets[0].value, ast.Name) \
+                and n.targets[0].value.id == "self" and n.targets[0].attr in ("points", "memo", "equations", "constants", "stocks", "flows", "converters"):
+            ngen += 1
+            v = n.value
+            shared = (isinstance(v, ast.Name) and v.id not in gparams and v.id != "JINJA") or (isinstance(v, ast.Attribute) and not isinstance(v.value, ast.Call))
+            res.check("FRESH", "generated model: self.%s is built per instance" % n.targets[0].attr, not shared, "%s (template)" % JINJA, "jinja:simulation_model.__init__",
+                      norm_stmt(n)[:90], "every instance of the generated model class takes its '%s' table from %s: one object for all scenarios "
+                      "compiled from the same file, so a points / constants override of one scenario changes its siblings" % (n.targets[0].attr, src(v)),
+                      key="FRESH/jinja:simulation_model.__init__/%s" % n.targets[0].attr)
+    res.floor("tables built in the generated model's __init__", ngen, 2)
     # scenario constants/points dicts: configure_settings and the REST channel write into the scenario's own dicts
     init = idx.func(SCEN, "SimulationScenario.__init__")
 
+    hybrid_fresh_rule(idx, res)
+    _c06_rest(idx, res)
+
+
+def hybrid_fresh_rule(idx: Index, res: Result) -> None:
+    """FRESH (hybrid managers): every scenario gets a model of its own - a deep copy or a new instance - and nothing of the base model
+    (data collector, scheduler, tables) is put back into it by reference.  Shared by C06 and C13 (statistics are per scenario)."""
     # ---- hybrid: per-scenario model ----------------------------------------------------------------------------------
     hy = idx.func(SM_HY, "ScenarioManagerHybrid.instantiate_model")
     stores = [n for n in walk_no_nested(hy.node) if isinstance(n, ast.Assign) and isinstance(n.targets[0], ast.Subscript)
@@ -257,6 +309,9 @@ def check_c06(idx: Index, tier: str, res: Result) -> None:
     res.check("FRESH", "hybrid deep copy is made per scenario", in_loop, hy.loc(), hy.qual, "deepcopy(self.model)",
               "the hybrid model is copied once for all scenarios", key="FRESH/ScenarioManagerHybrid.instantiate_model/loop")
 
+
+
+def _c06_rest(idx: Index, res: Result) -> None:
     # ---- mutable defaults -------------------------------------------------------------------------------------------------
     for rel, cname in ((SM_SD, "ScenarioManagerSd"), (SM_HY, "ScenarioManagerHybrid")):
         ci = idx.cls(rel, cname)
@@ -294,9 +349,14 @@ def check_c06(idx: Index, tier: str, res: Result) -> None:
                           "built this way share one table" % (cname, p, src(mut[p]), sorted(set(writers))[:2]),
                           key="DEFAULTS/%s/%s/%s" % (cname, p, fi.qual))
 
-    # ---- STALE: what one scenario's iteration reads was bound in that iteration ------------------------------------------------
+    res.floor("per-scenario / per-manager loops examined for stale locals", stale_rule(idx, res, ("BPTK_Py/scenariorunners/", "BPTK_Py/scenariomanager/", "BPTK_Py/bptk.py")), 60)
+
+
+def stale_rule(idx: Index, res: Result, prefixes) -> int:
+    """STALE: what one scenario's (agent's, instance's) loop iteration reads was bound in that iteration.  Shared by C06, C07, C09."""
     nloops = 0
-    for pre in ("BPTK_Py/scenariorunners/", "BPTK_Py/scenariomanager/", "BPTK_Py/bptk.py"):
+    if True:
+      for pre in prefixes:
         for fi in idx.all_funcs(pre):
             for lp in [x for x in walk_no_nested(fi.node) if isinstance(x, ast.For)]:
                 nloops += 1
@@ -307,7 +367,7 @@ def check_c06(idx: Index, tier: str, res: Result) -> None:
                           "inside the loop over %s the local '%s' is read on a path on which this iteration has not assigned it: it still holds what "
                           "the previous iteration (another scenario) left there, so that scenario's settings are applied to this one. Path: %s"
                           % (src(lp.iter)[:40], var, " ; ".join(wit[-5:])), key="STALE/%s/%s" % (fi.qual, var))
-    res.floor("per-scenario / per-manager loops examined for stale locals", nloops, 60)
+    return nloops
 
 
 # ---------------------------------------------------------------------------
@@ -337,6 +397,24 @@ def _channel_wiring(res: Result, fi: FuncInfo, obj_names: Set[str], label: str) 
             t = n.targets[0]
             if isinstance(t, ast.Attribute) and (dotted(t.value) or "") in obj_names:
                 v_ = n.value
+                # X = d.get("k") or <current> / X = d["k"] if d["k"] else <current>: the setting is taken only when it is *truthy* - a start
+                # time, stop time or constant of 0 given in the settings is silently replaced by the fallback
+                probe = None
+                if isinstance(v_, ast.BoolOp) and isinstance(v_.op, ast.Or) and len(v_.values) >= 2:
+                    probe = v_.values[0]
+                elif isinstance(v_, ast.IfExp) and not isinstance(v_.test, ast.Compare) and not (isinstance(v_.test, ast.UnaryOp) and isinstance(v_.test.operand, ast.Compare)):
+                    probe = v_.test
+                if probe is not None:
+                    pk = probe
+                    if isinstance(pk, ast.Call) and call_name(pk) == "get" and pk.args and const_str(pk.args[0]) is not None:
+                        pk = ast.Subscript(value=pk.func.value, slice=pk.args[0], ctx=ast.Load())
+                    pkeys = _dict_reads(pk)
+                    if pkeys and pkeys[-1] in KINDS + RUNSPECS:
+                        n_inst += 1
+                        res.check("WIRING", "%s: %s.%s takes the setting whatever its value" % (label, src(t.value), t.attr), False, fi.loc(n), fi.qual, norm_stmt(n)[:110],
+                                  "the %s channel stores the setting '%s' only when it is truthy (`%s`): a value of 0 given for it is ignored and the "
+                                  "previous value stays in force" % (label, pkeys[-1], src(v_)[:70]), key="WIRING/%s/%s-falsy-setting-ignored" % (fi.qual, t.attr))
+                        continue
                 if isinstance(v_, ast.IfExp):        # X = d["k"] if "k" in d else <default>
                     v_ = v_.body if _dict_reads(v_.body) else v_.orelse
                 if isinstance(v_, ast.Call) and call_name(v_) == "get" and v_.args and const_str(v_.args[0]) is not None:      # d.get("k", default)
@@ -437,6 +515,11 @@ def check_c07(idx: Index, tier: str, res: Result) -> None:
 
     closure_rule(idx, res, "APPLY", [(RUNNER, "SdRunner._run_scenarios"), (RUNNER, "SdRunner.run_scenario_step"),
                                      (SCEN, "SimulationScenario.configure_settings"), (SERVER, "BptkServer._run_resource")])
+    # settings take effect on every value reported afterwards: the caches the settings paths reset are emptied completely and unconditionally
+    from .memo import clear_rules
+    clear_rules(idx, res)
+    # the settings applied to one scenario are those given for it: nothing is carried over from the scenario handled before it
+    stale_rule(idx, res, ("BPTK_Py/scenariorunners/", "BPTK_Py/scenariomanager/", "BPTK_Py/bptk.py"))
 
     # ---- DEFUSE: change_runspecs ------------------------------------------------------------------------------------------
     cr = idx.func(SDSIM, "SdSimulation.change_runspecs")
